@@ -91,7 +91,7 @@ class Readout:
 
         if self._times[0] == 0:
             raise ValueError("Readout times should be non-zero values.")
-        elif start_time >= self._times[0]:
+        elif not start_time < self._times[0]:
             raise ValueError("Readout times should be greater than start time.")
 
         if not np.all(np.diff(self._times) > 0):
